@@ -192,6 +192,11 @@ Definition pformat_kw (ps : list fpiece) (d : pv) : res pv :=
   | None => Err TypeError
   end.
 
+(* `return fun(req)` in the request gate: the endpoint runs, with req.user *)
+Definition endpoint_tag : list Z := [60;114;117;110;62].         (* <run> *)
+Definition pcall_endpoint (user : pv) : res pv :=
+  Ok (PTuple [PBytes endpoint_tag; user]).
+
 (* ----------------------------------------------------------- try/except *)
 Inductive completion := Returned (v : pv) | Fell.
 Definition ptry (body : res completion) (handler : perr -> res pv)
